@@ -741,7 +741,7 @@ package validate
 //@ func (*SchemaValidator).Validate
 //@   effects validation
 //@   maypanic
-//@   loop 1 invariant kind != 22
+//@   loop 1 invariant kind != 22 && kind == kind(data)
 //@   requires[C06] isJSON(data)
 //@   requires[C06,C04] s == nil || readySV(s)
 //@   ensures[C04,C11] s == nil || redeemed(s) == old(s.Options.recycleValidators)
